@@ -215,7 +215,8 @@ def smtlib_member_runs(ck, quick, id0):
     asserts = [term_io.export(m.Or(p, q)), term_io.export(p)]
     a3 = term_io.export(m.Or(m.Not(p), m.Not(q)))
     by_label = {"solve": asserts, "is_sat, add_assertion, solve": asserts + [a3],
-                "push, add_assertion, solve": asserts + [a3, term_io.export(q)], "pop, solve": asserts + [a3], "cycle": asserts}
+                "push, add_assertion, solve": asserts + [a3, term_io.export(q)], "pop, solve": asserts + [a3], "cycle": asserts,
+                "push, add, push, add, solve": asserts + [a3, term_io.export(m.Not(p)), term_io.export(q)], "pop 2, solve": asserts + [a3]}
     scen = os.path.join(VERIF, "harness", "fakes", "portfolio_smtlib_scenario.py")
     evs = []
     running = []
